@@ -73,6 +73,10 @@ func (t *Template) ParseFS(tfs TrustedFS, patterns ...string) (*Template, error)
 // Copied from
 // https://go.googlesource.com/go/+/refs/tags/go1.17.1/src/text/template/helper.go.
 func parseFS(t *Template, fsys fs.FS, patterns []string) (*Template, error) {
+	if fsys == nil {
+		// The zero TrustedFS, e.g. the one returned with an error by TrustedFS.Sub.
+		return nil, fmt.Errorf("html/template: ParseFS called with a TrustedFS that holds no file system")
+	}
 	var filenames []string
 	for _, pattern := range patterns {
 		list, err := fs.Glob(fsys, pattern)
